@@ -57,9 +57,12 @@ type tcpConnSpec struct {
 	Seg        int      `json:"seg"`                        // 0 one write, 1 bytewise head, 2 random pieces
 }
 type tcpCaseSpec struct {
-	Cfg   []cfgKey      `json:"cfg"`
-	Cap   int           `json:"cap"`
-	Conns []tcpConnSpec `json:"conns"`
+	Cfg       []cfgKey      `json:"cfg"`
+	Cap       int           `json:"cap"`
+	Conns     []tcpConnSpec `json:"conns"`
+	coll      string        // Corr.Coll case term of the run
+	collN     int
+	collDiffs []string
 }
 
 type recEvent struct {
@@ -73,22 +76,32 @@ type recEvent struct {
 type recTCPMetrics struct {
 	mu  sync.Mutex
 	evs []recEvent
+	tee *teeTCPConn
 }
 
 func (m *recTCPMetrics) AddAuthenticated(accessKey string) {
 	m.mu.Lock()
 	defer m.mu.Unlock()
 	m.evs = append(m.evs, recEvent{Kind: "auth", ID: accessKey})
+	if m.tee != nil {
+		m.tee.auth(accessKey)
+	}
 }
 func (m *recTCPMetrics) AddClosed(status string, data metrics.ProxyMetrics, duration time.Duration) {
 	m.mu.Lock()
 	defer m.mu.Unlock()
 	m.evs = append(m.evs, recEvent{Kind: "closed", Status: status, Data: data})
+	if m.tee != nil {
+		m.tee.closed(status, data, duration)
+	}
 }
 func (m *recTCPMetrics) AddProbe(status, drainResult string, clientProxyBytes int64) {
 	m.mu.Lock()
 	defer m.mu.Unlock()
 	m.evs = append(m.evs, recEvent{Kind: "probe", Status: status, Drain: drainResult, N: clientProxyBytes})
+	if m.tee != nil {
+		m.tee.probe(status, drainResult, clientProxyBytes)
+	}
 }
 
 type tcpObs struct {
@@ -259,15 +272,22 @@ func runTCPCase(cs *tcpCaseSpec) []tcpObs {
 	cache := service.NewReplayCache(cs.Cap)
 	auth := service.NewShadowsocksStreamAuthenticator(cl, &cache, nil, nil)
 	var out []tcpObs
+	tee := newPromTee()
 	for i := range cs.Conns {
-		out = append(out, runTCPConn(auth, &cs.Conns[i]))
+		out = append(out, runTCPConn(auth, &cs.Conns[i], tee))
+	}
+	if tee != nil {
+		if term, n, err := tee.term(); err == nil {
+			cs.coll, cs.collN = term, n
+			cs.collDiffs = tee.diffs
+		}
 	}
 	return out
 }
 
 var tmuSink sync.Mutex
 
-func runTCPConn(auth service.StreamAuthenticateFunc, sp *tcpConnSpec) (ob tcpObs) {
+func runTCPConn(auth service.StreamAuthenticateFunc, sp *tcpConnSpec, tee *promTee) (ob tcpObs) {
 	// scripted target
 	ensureFakeDNS()
 	taddr := net.JoinHostPort(tcpTargetIP(sp.AKind), "0")
@@ -432,6 +452,9 @@ func runTCPConn(auth service.StreamAuthenticateFunc, sp *tcpConnSpec) (ob tcpObs
 				handlerDone <- fmt.Sprint("panic: ", r)
 			}
 		}()
+		if tee != nil {
+			rec.tee = tee.openTCP(c)
+		}
 		handler.Handle(context.Background(), c, rec)
 		c.Close()
 		handlerDone <- ""
